@@ -143,7 +143,16 @@ func (c EncCall) Class() string {
 		return "tok" + c.K
 	case "s", "rs":
 		return "tok-string"
-	case "i", "u", "d", "e", "rn":
+	case "d", "e":
+		f := math.Float64frombits(c.N)
+		if c.K == "e" {
+			f = float64(math.Float32frombits(uint32(c.N)))
+		}
+		if math.IsNaN(f) || math.IsInf(f, 0) {
+			return "tok-string" // Float(NaN) etc. are documented to be string tokens
+		}
+		return "tok-number"
+	case "i", "u", "rn":
 		return "tok-number"
 	case "z":
 		return "tok-zero"
@@ -333,6 +342,9 @@ func (o EncOpts) RawString(lit string) string {
 // RawNumber is the documented output spelling of a raw JSON number literal.
 func (o EncOpts) RawNumber(lit string) string {
 	isFloat := strings.ContainsAny(lit, ".eE")
+	if lit == "-0" && (o.CanonInts || o.CanonFloats) {
+		return "0" // both options document: "As a special case, the number -0 is canonicalized as 0"
+	}
 	if (isFloat && !o.CanonFloats) || (!isFloat && !o.CanonInts) {
 		return lit
 	}
